@@ -234,13 +234,14 @@ def run_include(ctx, U, s, ext, cfg, hostile):
 LOAD_PATHS = ('default', 'rel_lib', 'q_lib', 'abs', 'env')
 
 
-def run_require(ctx, U, s, lp, hostile, form=None, literal=None, home=None, maindir='root'):
+def run_require(ctx, U, s, lp, hostile, form=None, literal=None, home=None, maindir='root', outdir=None):
     """literal: the bytes to put between the quotes of the string literal when they are not simply s (escapes, raw high bytes);
     s then only labels the case."""
     from pico8 import tool
     root = os.path.join(U, maindir)
     main = os.path.join(root, 'main_req.lua')
-    out = os.path.join(root, 'out_req.p8')
+    # (the output cart may be built somewhere else: where it is written is not a place to look for required files)
+    out = os.path.join(root if outdir is None else os.path.join(U, outdir), 'out_req.p8')
     if literal is not None:
         form = 'literal'
     elif '"' in s or '\\' in s:
@@ -272,7 +273,7 @@ def run_require(ctx, U, s, lp, hostile, form=None, literal=None, home=None, main
     elif lp == 'env':
         env_path = '?;?.lua;' + os.path.join(U, 'abs', '?.lua')
         roots.append(os.path.join(U, 'abs'))
-    case = {'kind': 'require', 'string': s, 'load_path': lp, 'hostile': hostile, 'maindir': maindir, 'home': bool(home)}
+    case = {'kind': 'require', 'string': s, 'load_path': lp, 'hostile': hostile, 'maindir': maindir, 'home': bool(home), 'outdir': outdir}
     if literal is not None:
         case['literal'] = literal
     nontrivial = '..' in s.split('/') or s.startswith('/') or 'rootbar' in s
@@ -328,7 +329,7 @@ def run_require(ctx, U, s, lp, hostile, form=None, literal=None, home=None, main
         # the other half of the statement: such strings are refused with an error, wherever they would lead
         ctx.violation('require("%s") with load path %s (%s fs) was accepted: the build succeeded' % (s, lp, 'hostile' if hostile else 'real'), case)
         return
-    outp = w.outside()
+    outp = [(p, m) for p, m in w.outside() if p != fsmon._norm(out)]
     if outp:
         ctx.violation('require("%s") with load path %s (%s fs) opened %s, outside %s' % (
             s, lp, 'hostile' if hostile else 'real', sorted({os.path.relpath(p, U) for p, m in outp}),
@@ -572,6 +573,11 @@ def run_shard(spec, ctx):
                         run_require(ctx, U, s_, lp, hostile, form='paren', home=os.path.join(U, 'home'),
                                     maindir='home/.lexaloffle/pico-8/carts/game')
                     ctx.feature('main_file_inside_carts_folder_project')
+                # the output cart is built in another directory, which holds files of the required names too
+                for s_ in ('x', 'lib', 'sub/x', 'init', 'root'):
+                    for lp in LOAD_PATHS:
+                        run_require(ctx, U, s_, lp, hostile, form='paren', outdir='outside')
+                    ctx.feature('output_cart_in_another_directory')
                 # a cart in a directory whose name has capitals, a lower-case twin of that directory next to it, a file only the twin has
                 only = os.path.join(U, 'root', 'sub', 'only_in_lower_case_twin.lua')
                 with open(only, 'wb') as fh:
@@ -650,7 +656,7 @@ def replay(case, ctx):
                     break
         else:
             run_require(ctx, U, case['string'], case['load_path'], case['hostile'], literal=case.get('literal'),
-                        home=os.path.join(U, 'home') if case.get('home') else None, maindir=case.get('maindir', 'root'))
+                        home=os.path.join(U, 'home') if case.get('home') else None, maindir=case.get('maindir', 'root'), outdir=case.get('outdir'))
     finally:
         shutil.rmtree(U, ignore_errors=True)
 
@@ -661,7 +667,7 @@ def gates(m, tier):
     N = 3 if tier == 'quick' else 4
     if f.get('strings_enumerated', 0) != len(strings(N)):
         missed.append('strings enumerated %d of %d' % (f.get('strings_enumerated', 0), len(strings(N))))
-    for k in ('cart_loaded_from_stream_without_name', 'cart_under_cwd_relative_carts_folder', 'strings_with_tilde', 'nested_require_from_subdirectory', 'main_named_bare', 'main_named_relative', 'cart_named_bare', 'cart_named_relative', 'links_done', 'strings_through_directory_links', 'strings_with_backslash_separators', 'strings_with_undecodable_bytes', 'sequences_done', 'failed_load_before_case', 'failed_build_before_case', 'include_cfg:subdir', 'absolute_paths_done', 'names_done', 'cart_directories_with_special_characters', 'carts_folder_lookalikes', 'main_file_inside_carts_folder_project', 'strings_with_backslash_digit_values', 'strings_with_blanks_around_a_path', 'file_only_in_lower_case_twin_directory', 'require_scenario:ancestor_pattern', 'require_scenario:ancestor_pattern_two', 'require_scenario:package_outside_project', 'hostile', 'real_fs', 'include_cfg:plain', 'include_cfg:carts', 'include_cfg:carts2', 'include_rejected',
+    for k in ('cart_loaded_from_stream_without_name', 'cart_under_cwd_relative_carts_folder', 'strings_with_tilde', 'nested_require_from_subdirectory', 'main_named_bare', 'main_named_relative', 'cart_named_bare', 'cart_named_relative', 'links_done', 'strings_through_directory_links', 'strings_with_backslash_separators', 'strings_with_undecodable_bytes', 'sequences_done', 'failed_load_before_case', 'failed_build_before_case', 'include_cfg:subdir', 'absolute_paths_done', 'names_done', 'cart_directories_with_special_characters', 'carts_folder_lookalikes', 'main_file_inside_carts_folder_project', 'strings_with_backslash_digit_values', 'strings_with_blanks_around_a_path', 'output_cart_in_another_directory', 'file_only_in_lower_case_twin_directory', 'require_scenario:ancestor_pattern', 'require_scenario:ancestor_pattern_two', 'require_scenario:package_outside_project', 'hostile', 'real_fs', 'include_cfg:plain', 'include_cfg:carts', 'include_cfg:carts2', 'include_rejected',
               'include_loaded', 'require_rejected', 'require_built') + tuple('load_path:' + l for l in LOAD_PATHS):
         if f.get(k, 0) < 1:
             missed.append('%s never seen' % k)
